@@ -28,7 +28,7 @@ from .qeval import ONE, ZERO, Q
 SPEC = core.SPEC / "features"
 REFUSALS = ("ValueError", "NotImplementedError", "ModelError", "ModelSyntaxError")
 KINDS = ["reread", "elim", "addcov", "rmcov", "allometry", "addiiv", "rmiiv", "addiov", "rmiov", "transform", "seterr", "rmerr",
-         "power", "iivruv", "timevar", "weighted", "abs", "transit"]
+         "power", "iivruv", "timevar", "weighted", "joineps", "abs", "transit"]
 
 _MODELS = {}
 
@@ -543,6 +543,27 @@ def do_weighted(m1, act, cx):
     return m2, {"pts": pts, "frame": P.frame_pairs(v1, v2, {y, "W"})}
 
 
+def do_joineps(m1, act, cx):
+    """create_joint_distribution over all epsilons (correlated residual errors): the model function stays the same"""
+    from pharmpy.modeling import create_joint_distribution
+
+    eps = _eps_names(m1)
+    m2 = create_joint_distribution(m1, list(eps))
+    dists = [d for d in m2.random_variables.epsilons if set(d.names) >= set(eps)]
+    if len(eps) < 2 or not dists:
+        raise core.MachineryError(f"joineps: the epsilons {eps} are not in one distribution after create_joint_distribution")
+    y = _yname(m1)
+    pts = []
+    for a, b in [(0, 0), (1, 0), (0, 1), (-1, 2)]:
+        env = _be([m1, m2], cx.salt, "small", "zero")
+        eo = {eps[0]: a, eps[1]: b}
+        pts.append({"yb": qj(_y_at(m1, env, None, eo).get(y)), "a": qj(_y_at(m2, env, None, eo).get(y))})
+    env = _be([m1, m2], cx.salt, "small", "zero")
+    v1, _ = P.run(m1, env)
+    v2, _ = P.run(m2, env)
+    return m2, {"pts": pts, "frame": P.frame_pairs(v1, v2, {y})}
+
+
 def _abs_obs(model, env):
     """observables of the absorption part: KA (flow depot -> central), infusion duration, MAT, MDT, transit rates"""
     v, ode = P.run(model, env)
@@ -622,7 +643,7 @@ ACTIONS = {
     "reread": do_reread, "elim": do_elim,
     "addcov": do_addcov, "rmcov": do_rmcov, "allometry": do_allometry, "addiiv": do_addiiv, "rmiiv": do_rmiiv,
     "addiov": do_addiov, "rmiov": do_rmiov, "transform": do_transform, "seterr": do_seterr, "rmerr": do_rmerr,
-    "power": do_power, "iivruv": do_iivruv, "timevar": do_timevar, "weighted": do_weighted, "abs": do_abs,
+    "power": do_power, "iivruv": do_iivruv, "timevar": do_timevar, "weighted": do_weighted, "joineps": do_joineps, "abs": do_abs,
     "transit": do_transit,
 }
 
@@ -867,6 +888,9 @@ def _must(c):
     if c["model"] == "phenoexp" and ks in (["addiiv", "rmiiv"], ["addiiv", "rmiiv", "addiiv"]) and h[0]["p"] == "CL" and h[1]["p"] == "CL":
         return len(h) == 2 or h[2]["p"] == "CL"
     if c["model"] == "pheno2dv":     # every error model on one dependent variable, then on the other / the same one
+        return True
+    # correlated residual errors (both epsilons in one joint distribution), then every decoration / setter of the error model
+    if len(ks) >= 2 and ks[-2] == "joineps" and not c["noop"][-1]:
         return True
     if ks == ["elim", "allometry"]:   # allometry after every elimination setter: the volume must still be scaled
         return True
